@@ -48,8 +48,8 @@ PROPS = {
                 "least two atoms / query that is present; distinct = distinct case line",
         "assumptions": ["slice::sort and rayon par_sort are stable sorts (their documented contract); the model uses an insertion sort and the "
                         "theorem C11_stable_sort_determined shows any sorted, stable rearrangement is the same list",
-                        "the structure-level theorem binary_find = linear_find on renumbered structures is not yet proved end to end: the generic "
-                        "binary-search theorem is, and the equality is checked on every explored structure and query"],
+                        "binary_find = linear_find is proved for every structure whose serial numbers increase strictly in traversal order and that has "
+                        "no empty container (C11_binary_find_is_linear_find); that renumber produces such numbers is checked on the explored structures"],
     },
     "C12": {
         "translators": ["t2b"],
